@@ -28,6 +28,16 @@ type c14Scenario struct {
 	SnapKeys   int      `json:"snap_keys,omitempty"` // keys in the snapshot the first full sync replays (0 = empty snapshot)
 	Bulk       bool     `json:"bulk,omitempty"`      // all items of one symbol arrive in one read
 	BigTxn     int      `json:"big_txn,omitempty"`   // commands in the transaction of symbol tL (0 = 1100)
+	// Rekey > 0 (family 'failover', c14r_test.go): from start number Rekey on the source reports a new
+	// replication id with the previous one as its second id (fail-over, same history, offsets go on).
+	// Every start of such a scenario runs (*syncer).updateCheckpoint, StartPoint(ids), SetRunId(ids[0]).
+	Rekey int `json:"rekey,omitempty"`
+	// SoftStops: a start that follows a run which ended without a crash is an in-process restart (the
+	// same RedisOutput is asked for its start point, told the run id and sent the stream again)
+	SoftStops bool `json:"soft_stops,omitempty"`
+	// StopAt > 0: the first run is stopped (context cancelled, source closed) in front of the first
+	// item of symbol number StopAt: the rest of the stream is traffic for the following starts
+	StopAt int `json:"stop_at,omitempty"`
 }
 
 type c14Run struct {
@@ -113,18 +123,33 @@ func c14Exec(t *testing.T, scn c14Scenario, ch *mc.Chooser) (rec c14Rec, machine
 		frontierMode := scn.Cfg.Mode != "sync"
 		idleLeft := scn.Idle
 		streamDone := false
-		for runNo := 0; runNo < scn.MaxCrashes+scn.Idle+2; runNo++ {
+		maxRuns := scn.MaxCrashes + scn.Idle + 2
+		if scn.StopAt > 0 {
+			maxRuns++
+		}
+		var prevRo *RedisOutput // the output of the previous run when that run ended without a crash (SoftStops)
+		for runNo := 0; runNo < maxRuns; runNo++ {
 			rr := c14Run{FirstSeq: srv.NumReqs() + 1, Idle: streamDone}
 			if runNo > 0 {
 				srv.Revive()
 			}
+			ids := c14IDs(scn.Rekey, runNo)
 			var boot biBootResult
 			crashed := ctl.event(fmt.Sprintf("crash.boot%d", runNo), func() {
 				if snapRDB != nil {
 					biBootRDB = snapRDB
 				}
+				if scn.Rekey > 0 {
+					var reuse *RedisOutput
+					if scn.SoftStops {
+						reuse = prevRo
+					}
+					boot = biBootIDs(scn.Cfg, rc, "src", ids, aofS0, func(string) *redisd.Server { return srv }, reuse)
+					return
+				}
 				boot = biBoot(scn.Cfg, rc, "src", aofRunID, aofS0, true, srv)
 			})
+			prevRo = nil
 			rr.BootEnd = srv.NumReqs()
 			if crashed || boot.err != nil {
 				rr.Crashed = crashed
@@ -148,9 +173,10 @@ func c14Exec(t *testing.T, scn c14Scenario, ch *mc.Chooser) (rec c14Rec, machine
 				rec.Early = &v
 				break
 			}
-			run := biStart(boot.ro, aofRunID, boot.offset)
+			run := biStart(boot.ro, ids[0], boot.offset)
 			arm(true)
 			pos := startIdx
+			stopped := false
 			step := 0
 			doEvent := func(f func()) bool {
 				step++
@@ -159,6 +185,10 @@ func c14Exec(t *testing.T, scn c14Scenario, ch *mc.Chooser) (rec c14Rec, machine
 			}
 			crashed = false
 			for pos < len(items) && !run.ended && !crashed {
+				if scn.StopAt > 0 && runNo == 0 && items[pos].Sym == scn.StopAt {
+					stopped = true
+					break
+				}
 				if frontierMode {
 					a := ch.Choose(fmt.Sprintf("r%d.pre%d", runNo, pos), 3)
 					switch a {
@@ -186,7 +216,7 @@ func c14Exec(t *testing.T, scn c14Scenario, ch *mc.Chooser) (rec c14Rec, machine
 				crashed = doEvent(func() { run.feed(it.Raw) })
 				pos++
 			}
-			if !crashed && !run.ended && frontierMode {
+			if !crashed && !run.ended && frontierMode && !stopped {
 				a := ch.Choose(fmt.Sprintf("r%d.post", runNo), 3)
 				switch a {
 				case 1:
@@ -196,7 +226,7 @@ func c14Exec(t *testing.T, scn c14Scenario, ch *mc.Chooser) (rec c14Rec, machine
 				}
 			}
 			early := run.ended
-			if !crashed && !early && frontierMode {
+			if !crashed && !early && frontierMode && !stopped {
 				// closing step of every schedule: one frontier tick lets the coordinator persist
 				// what it has (the variant without it is the crash point just before)
 				crashed = doEvent(func() { vtime.Fire("frontier"); run.wait() })
@@ -211,6 +241,9 @@ func c14Exec(t *testing.T, scn c14Scenario, ch *mc.Chooser) (rec c14Rec, machine
 				rr.SendErr = run.err.Error()
 			}
 			rr.Completed = !crashed && !early && pos == len(items)
+			if !crashed && !early {
+				prevRo = boot.ro
+			}
 			rec.Runs = append(rec.Runs, rr)
 			if early && !crashed {
 				v := mc.Violation("replay stopped although the target is healthy", "C14:send-returned:"+scn.Cfg.Mode, map[string]interface{}{"error": rr.SendErr, "run": runNo})
@@ -286,8 +319,17 @@ func hashField(r *redisd.Req, field string) (string, bool) {
 
 func oracleC14(scn c14Scenario, rec *c14Rec) mc.Result {
 	mode := scn.Cfg.Mode
+	isSync := mode == "sync" || mode == "cluster-sync"
+	if scn.Rekey > 0 {
+		// the clauses are the same across the change of the replication id (offsets, records and
+		// position writes under both ids are ONE history); the signature names the family
+		mode += ":failover"
+	}
 	if rec.Early != nil {
 		r := *rec.Early
+		if scn.Rekey > 0 {
+			r.Sig += ":failover"
+		}
 		r.Detail = map[string]interface{}{"detail": r.Detail, "history": rec.describe()}
 		return r
 	}
@@ -426,7 +468,7 @@ func oracleC14(scn c14Scenario, rec *c14Rec) mc.Result {
 					map[string]interface{}{"run": k, "resume": rr.Offset, "unit_end": u.End, "unit": u.Sym, "history": rec.describe()})
 			}
 		}
-		if mode == "sync" || mode == "cluster-sync" {
+		if isSync {
 			var last int64 = aofS0
 			for ui, u := range units {
 				if committedBefore(ui, rr.BootEnd) && u.End > last {
@@ -448,7 +490,7 @@ func oracleC14(scn c14Scenario, rec *c14Rec) mc.Result {
 		}
 		prev, prevRun = rr.Offset, k
 	}
-	if mode == "sync" || mode == "cluster-sync" {
+	if isSync {
 		for ui, n := range commitCount {
 			if n > 1 {
 				return mc.Violation("sync mode committed a unit twice", "C14:repeat:"+mode, map[string]interface{}{"unit": units[ui].Sym, "times": n, "history": rec.describe()})
@@ -494,7 +536,7 @@ func runC14(t *testing.T, rep *mc.Reporter) {
 	} else if rp != nil {
 		var cs c14cScenario
 		if err := json.Unmarshal(rp.Scenario, &cs); err == nil && cs.Cluster {
-			view := c14Scenario{Cfg: biCfg{"cluster-" + cs.Cfg.Mode, 2}, MaxCrashes: cs.MaxCrashes, Idle: cs.Idle}
+			view := c14Scenario{Cfg: biCfg{"cluster-" + cs.Cfg.Mode, 2}, MaxCrashes: cs.MaxCrashes, Idle: cs.Idle, Rekey: cs.Rekey}
 			for _, l := range cs.Lanes {
 				view.Syms = append(view.Syms, fmt.Sprintf("lane%d", l))
 			}
@@ -629,8 +671,14 @@ func runC14(t *testing.T, rep *mc.Reporter) {
 		cplans = tplans
 		plans = nil
 	}
-	if fam == "big" {
+	if fam == "big" || fam == "failover" || fam == "failoverc" {
 		cplans = nil
+	}
+	// ---- family 'failover' (c14r_test.go): the source's replication id changes between two starts.
+	// First in the order: small (about 10^4 executions in the quick tier), and a deadline reached in the
+	// families below must not leave it out
+	if fam == "" || fam == "failover" || fam == "failoverc" {
+		c14FailoverFamily(t, rep, tier, shard, nshards, &idx, budget, cbudget, exec, fam == "failoverc")
 	}
 	for _, cp := range cplans {
 		// one execution costs about half a second (every start scans the 16384 slots): all shards
